@@ -39,7 +39,7 @@ LEVEL_NOTE = (
     "basic indexing (the model and its specification are checked against them on every case); jax dtype promotion (table "
     "validated every run). Excluded by an explicit hypothesis of the dtype theorem (and false for the code): operands of "
     "different dtypes in a generic sum / Operator composition - recorded findings mixed-operand-dtypes, "
-    "adj-dtype-check-mixed. Not theorems: DiagonalReplicated metadata (oracle only)."
+    "adj-dtype-check-mixed."
 )
 PROP_MODULES = ["Scico.Props.C12"]
 EXTRA_TARGETS = ["Drv.Shape", "Drv.OpAlg"]
@@ -439,6 +439,7 @@ def _part2(ctx):
 
         S.model_tie(ctx, env, om, ctx.n(40, 1200))
         S.freeze_tie(ctx, env, om, ctx.n(60, 1500))
+        S.drep_tie(ctx, env, om, ctx.n(50, 1200))
     finally:
         om.close()
 
